@@ -71,7 +71,7 @@ From PV Require Import Proofs.C01Base Proofs.C01 Proofs.C12Base Proofs.C12.
 From PV Require Import Proofs.C01Weak Proofs.C12Weak.
 From PV Require Import Model.Fail Model.ValidateFail.
 From PV Require Import Proofs.C12Chain Proofs.C12FailBase Proofs.C12Fail.
-From PV Require Import Proofs.C12Once Proofs.C12Tol.
+From PV Require Import Proofs.C12Once Proofs.C12Tol Proofs.C12TolWeak.
 Import ListNotations.
 Local Open Scope nat_scope.
 
@@ -495,3 +495,89 @@ Theorem C12_decided_entries_partial : forall W sem ftext tol,
     = rep_get (vs_report (validate W sem ftext tol outs2)) n.
 Proof. exact decided_entries. Qed.
 Print Assumptions C12_decided_entries_partial.
+
+(* ============================== every tolerance AND the weak non-blank condition ====
+   The strongest forms (Proofs/C12TolWeak.v): C12_*_partial, C12_*_weak_partial and
+   C12_*_anytol_partial above are instances.  Still PARTIAL for the formula-text side
+   conditions (and, for C12_decided_entries, the cells below an altered cell). *)
+Theorem C12_sound_anytol_weak_partial : forall W sem ftext tol,
+  wf W -> sem_nonblank_weak W sem -> stored_consistent W sem ->
+  (forall n, n < wb_n W -> is_fcell W n = true ->
+     close_enough tol (spec W sem (wb_inp0 W) n) (spec W sem (wb_inp0 W) n) = true) ->
+  (forall n vals, n < wb_n W -> is_fcell W n = true -> py_eq (sem n vals) (VStr (ftext n)) = false) ->
+  forall outs, (forall o, In o outs -> o < wb_n W) ->
+    vs_report (validate W sem ftext tol outs) = [].
+Proof. exact sound_tw. Qed.
+Print Assumptions C12_sound_anytol_weak_partial.
+
+Theorem C12_complete_anytol_weak_partial : forall W sem ftext tol p v',
+  wf W -> sem_nonblank_weak W sem -> stored_consistent W sem ->
+  p < wb_n W -> is_fcell W p = true ->
+  (forall n, n < wb_n W -> is_fcell W n = true ->
+     close_enough tol (spec W sem (wb_inp0 W) n) (spec W sem (wb_inp0 W) n) = true) ->
+  (forall n vals, n < wb_n W -> is_fcell W n = true -> py_eq (sem n vals) (VStr (ftext n)) = false) ->
+  v' <> VNone -> py_eq v' (VStr (ftext p)) = false ->
+  close_enough tol (spec W sem (wb_inp0 W) p) v' = false ->
+  forall outs, (forall o, In o outs -> o < wb_n W) ->
+    (exists o, In o outs /\ (p = o \/ anc W p o)) ->
+    let r := vs_report (validate (perturb W p v') sem ftext tol outs) in
+    rep_get r p = Some (v', spec W sem (wb_inp0 W) p) /\
+    forall n, rep_get r n <> None -> n = p \/ anc W p n.
+Proof. exact complete_tw. Qed.
+Print Assumptions C12_complete_anytol_weak_partial.
+
+Theorem C12_no_silent_skip_anytol_weak_partial : forall W sem ftext tol,
+  wf W -> sem_nonblank_weak W sem -> stored_full W ->
+  (forall n, n < wb_n W -> is_fcell W n = true -> py_eq (wb_stored W n) (VStr (ftext n)) = false) ->
+  (forall n vals, n < wb_n W -> is_fcell W n = true -> py_eq (sem n vals) (VStr (ftext n)) = false) ->
+  (forall n, n < wb_n W -> is_fcell W n = true ->
+     close_enough tol (spec W sem (wb_inp0 W) n) (spec W sem (wb_inp0 W) n) = true) ->
+  forall outs, (forall o, In o outs -> o < wb_n W) ->
+    vs_todo (validate W sem ftext tol outs) = [] /\
+    forall o n, In o outs -> n = o \/ anc W n o ->
+      mem n (vs_verified (validate W sem ftext tol outs)) = true.
+Proof. exact processed_all_tw. Qed.
+Print Assumptions C12_no_silent_skip_anytol_weak_partial.
+
+Theorem C12_clean_not_reported_anytol_weak_partial : forall W sem ftext tol,
+  wf W -> sem_nonblank_weak W sem -> stored_full W ->
+  (forall n, n < wb_n W -> is_fcell W n = true -> py_eq (wb_stored W n) (VStr (ftext n)) = false) ->
+  (forall n vals, n < wb_n W -> is_fcell W n = true -> py_eq (sem n vals) (VStr (ftext n)) = false) ->
+  (forall n, n < wb_n W -> is_fcell W n = true ->
+     close_enough tol (spec W sem (wb_inp0 W) n) (spec W sem (wb_inp0 W) n) = true) ->
+  forall outs, (forall o, In o outs -> o < wb_n W) ->
+  forall n, clean W sem n -> rep_get (vs_report (validate W sem ftext tol outs)) n = None.
+Proof. exact clean_not_reported_tw. Qed.
+Print Assumptions C12_clean_not_reported_anytol_weak_partial.
+
+Theorem C12_bad_reported_anytol_weak_partial : forall W sem ftext tol,
+  wf W -> sem_nonblank_weak W sem -> stored_full W ->
+  (forall n, n < wb_n W -> is_fcell W n = true -> py_eq (wb_stored W n) (VStr (ftext n)) = false) ->
+  (forall n vals, n < wb_n W -> is_fcell W n = true -> py_eq (sem n vals) (VStr (ftext n)) = false) ->
+  (forall n, n < wb_n W -> is_fcell W n = true ->
+     close_enough tol (spec W sem (wb_inp0 W) n) (spec W sem (wb_inp0 W) n) = true) ->
+  forall outs, (forall o, In o outs -> o < wb_n W) ->
+  forall o n, In o outs -> n = o \/ anc W n o -> n < wb_n W -> is_fcell W n = true ->
+    semiclean W sem n ->
+    close_enough tol (spec W sem (wb_inp0 W) n) (wb_stored W n) = false ->
+    rep_get (vs_report (validate W sem ftext tol outs)) n
+    = Some (wb_stored W n, spec W sem (wb_inp0 W) n).
+Proof. exact bad_reported_tw. Qed.
+Print Assumptions C12_bad_reported_anytol_weak_partial.
+
+Theorem C12_decided_entries_weak_partial : forall W sem ftext tol,
+  wf W -> sem_nonblank_weak W sem -> stored_full W ->
+  (forall n, n < wb_n W -> is_fcell W n = true -> py_eq (wb_stored W n) (VStr (ftext n)) = false) ->
+  (forall n vals, n < wb_n W -> is_fcell W n = true -> py_eq (sem n vals) (VStr (ftext n)) = false) ->
+  (forall n, n < wb_n W -> is_fcell W n = true ->
+     close_enough tol (spec W sem (wb_inp0 W) n) (spec W sem (wb_inp0 W) n) = true) ->
+  forall outs1 outs2,
+  (forall o, In o outs1 -> o < wb_n W) -> (forall o, In o outs2 -> o < wb_n W) ->
+  forall n, n < wb_n W -> is_fcell W n = true -> semiclean W sem n ->
+    (good W sem n \/ close_enough tol (spec W sem (wb_inp0 W) n) (wb_stored W n) = false) ->
+    (exists o, In o outs1 /\ (n = o \/ anc W n o)) ->
+    (exists o, In o outs2 /\ (n = o \/ anc W n o)) ->
+    rep_get (vs_report (validate W sem ftext tol outs1)) n
+    = rep_get (vs_report (validate W sem ftext tol outs2)) n.
+Proof. exact decided_entries_tw. Qed.
+Print Assumptions C12_decided_entries_weak_partial.
